@@ -164,6 +164,9 @@ where
                             } else {
                                 let mut current_param = match current.parse::<u64>() {
                                     Ok(val) => val,
+                                    // only digits are collected, so a failure on
+                                    // a non-empty string is an overflow
+                                    _ if !current.is_empty() => 9999,
                                     _ => 0,
                                 };
                                 current_param = u64::min(current_param, 9999);
@@ -290,6 +293,9 @@ where
                             } else {
                                 let mut current_param = match current.parse::<u64>() {
                                     Ok(val) => val,
+                                    // only digits are collected, so a failure on
+                                    // a non-empty string is an overflow
+                                    _ if !current.is_empty() => 9999,
                                     _ => 0,
                                 };
                                 current_param = u64::min(current_param, 9999);
